@@ -72,6 +72,18 @@ def check_trimmed(ctx: Ctx, dtype):
         ctx.violation(f"TrimmedMean({b}) raised {x} on {m} rows", rp)
         return
     xs = tensor_to_fr(x)
+    # the result belongs to the caller: a later call on the same instance (same shape, other values) must not change it
+    if rng.random() < 0.3:
+        keep = x.clone()
+        Aagain = TrimmedMean(trim_number=b)
+        x1 = Aagain(Jt)
+        Aagain(Jt.flip(0) * 3 + 1)
+        ctx.count("trimmed_result_kept_after_second_call")
+        if not torch.equal(x1, keep):
+            ctx.violation(f"TrimmedMean({b}): the vector returned by a call changed after the same instance was called again "
+                          f"({keep.tolist()} became {x1.tolist()})", {"aggregator": "TrimmedMean", "b": b,
+                                                                      "J": [[str(v) for v in r] for r in J], "dtype": str(dtype)})
+            return
     mod = fr_list(ask_agg(ctx.driver, "trimmed", J, b=b)[1])
     good = [i for i in range(m) if i not in bad]
     # every kept entry lies between the extremes of the untouched rows (k <= b): rounding is relative to THEIR magnitude,
